@@ -49,14 +49,16 @@ pub fn property() -> Property {
             "nsupport = number of coefficients with |a_i| > 100 eps_mach (the definition in the code); the corner of a coefficient within a factor r of that threshold is not targeted".into(),
             "Platt calibration errors (line search / iteration limit of the calibration) are counted, not judged; probabilities must be monotone within 1e-6 in the model's own decision value".into(),
             "f32 cases: C <= 10, eps = 1e-3, all numbers of the case exactly representable in f32".into(),
+            "C in 10^[-2,3] for classification; for SVR the exponent range is compressed to C <= 31.6 (linear, Gaussian, degree 1), <= 3.2 (degree 2), <= 1 (degree 3): beyond that SMO needs 10^6..10^7 iterations per fit (linfa's cap is 10^7), a cost limit of the harness, not a domain limit of the property; the large-n stratum uses C <= 10".into(),
+            "loss epsilon of eps-SVR in {0.001, 0.01, 0.1, 0.5}: c_svr(c, Some(0.0)) is rejected by linfa's parameter check (InvalidC), so 0 is not generated".into(),
         ],
         subs: vec![
             // heaviest first
-            prop_sub("large_n", 12, 50, |t: Tier| large_strategy(t.pick(250, 600), t.pick(600, 2000)), oracle::check).chunks(12),
+            prop_sub("large_n", 24, 80, |t: Tier| large_strategy(t.pick(250, 600), t.pick(600, 2000)), oracle::check).chunks(12),
             prop_sub(
                 "shrink",
-                160,
-                1500,
+                320,
+                5000,
                 |t: Tier| {
                     case_strategy(Flavor { n_lo: 10, n_hi: t.pick(90, 120), shrinking: true, single: false, c_lo: -100, c_hi: 300 })
                 },
@@ -65,8 +67,8 @@ pub fn property() -> Property {
             .chunks(16),
             prop_sub(
                 "noshrink",
-                480,
-                4500,
+                2000,
+                24000,
                 |_t: Tier| case_strategy(Flavor { n_lo: 10, n_hi: 120, shrinking: false, single: false, c_lo: -200, c_hi: 300 }),
                 oracle::check,
             )
@@ -74,8 +76,8 @@ pub fn property() -> Property {
             .require(&["task_c_svc", "task_nu_svc", "task_eps_svr", "task_one_class", "has_free_sv", "has_bounded_sv"]),
             prop_sub(
                 "f32",
-                160,
-                1000,
+                600,
+                5000,
                 |_t: Tier| case_strategy(Flavor { n_lo: 10, n_hi: 60, shrinking: false, single: true, c_lo: -200, c_hi: 100 }),
                 oracle::check,
             )
